@@ -504,8 +504,12 @@ func (a *Adversary) badBlock(h uint64) bool {
 	}
 	E := a.newBlock(h, true)
 	switch a.r.Intn(4) {
-	case 0: // a good-looking block of another height
+	case 0: // a good-looking block of another height: a fresh one of a later height, or the block already committed one height below
 		E = a.newBlock(h+1+uint64(a.r.Intn(2)), false)
+		if c, ok := a.w.Canon[h-1]; ok && h > 1 && a.r.Intn(2) == 0 {
+			E = c.Block
+			a.w.Mon.Stats["adv committed block of the previous height proposed again"]++
+		}
 	case 1: // a block on which the consumers' validators crash instead of answering
 		E.Body = spi.PanicBody + "-" + E.Body
 		a.w.Mon.Stats["adv blocks that crash the validator"]++
